@@ -46,7 +46,7 @@ var c12OddPayloads = []string{`null`, ` null `, `[]`, `"targetArtifact"`, `7`, `
 	`{"targetArtifact":{"mediaType":null,"digest":null,"size":null,"annotations":null}}`, `{"targetArtifact":{"digest":"sha256:","size":-1}}`, `[null]`, `{"targetArtifact":{"annotations":{"a":null}}}`}
 
 func (c12) Rule() string {
-	return "fault-heavy plans: <= 8 operations over surfaces {verify: random bytes, 1-6-fold mutations of valid JWS / COSE envelopes and intact validly signed envelopes whose payload is null / an array / a scalar / an object with null or mistyped members, through the four entry points x verifier constructions (OCI-only, blob-only, both, nil plugin manager, skip-level statements) x four levels; verification plugin answering with nil / partial / wrong-typed responses; policy / signing-key / config files truncated, flipped, mutated or random on the simulated disk, then loaded and used; CRL cache files corrupted then read; trust-store certificate files corrupted then loaded; a hostile OCI layout (index.json and blobs corrupted at rest, mutated referrer manifests) through NewOCIRepository / Resolve / ListSignatures / FetchSignatureBlob; CLI plugin stdout / stderr random or mutated for the five commands}. Oracle: no panic, bounded allocation per call, and (outcome, error) consistency. non-trivial: every run; distinct: hash of (surface, variant, outcome class) sequence"
+	return "fault-heavy plans: <= 8 operations over surfaces {verify: random bytes, 1-6-fold mutations of valid JWS / COSE envelopes and intact validly signed envelopes whose payload is null / an array / a scalar / an object with null or mistyped members, through the four entry points x verifier constructions (OCI-only, blob-only, both, nil plugin manager, skip-level statements) x four levels; verification plugin answering with nil / partial / wrong-typed responses; policy / signing-key / config files truncated, flipped, mutated or random on the simulated disk, then loaded and used; CRL cache files corrupted then read; trust-store certificate files corrupted then loaded; a hostile OCI layout (index.json and blobs corrupted at rest, mutated referrer manifests) through NewOCIRepository / Resolve / ListSignatures / FetchSignatureBlob; CLI plugin stdout / stderr random or mutated for the five commands; one PluginSigner over a CLI plugin used for three signing attempts while the plugin's describe-key and generate-signature output changes (unknown key spec, mutated, empty, honest)}. Oracle: no panic, bounded allocation per call, and (outcome, error) consistency. non-trivial: every run; distinct: hash of (surface, variant, outcome class) sequence"
 }
 func (c12) Components() map[string]string {
 	return map[string]string{
@@ -58,7 +58,7 @@ func (c12) Components() map[string]string {
 	}
 }
 
-var c12Surfaces = []string{"verify", "verify", "verify", "verifyplugin", "odd-verifier", "policyfile", "keysfile", "crlcache", "truststore", "layout", "cliplugin"}
+var c12Surfaces = []string{"verify", "verify", "verify", "verifyplugin", "odd-verifier", "policyfile", "keysfile", "crlcache", "truststore", "layout", "cliplugin", "pluginsigner"}
 
 func (c12) Gen(r *rand.Rand, tier string, idx int) *core.Plan {
 	p := &core.Plan{World: map[string]int64{}}
@@ -601,6 +601,57 @@ func (l c12) Exec(env *core.Env) *core.Result {
 					}
 				})
 				sim.Abstract("cliplugin " + cmdN)
+			case "pluginsigner":
+				// one PluginSigner over a CLI plugin, used for three signing attempts in a row while what the plugin prints
+				// for describe-key and generate-signature changes from attempt to attempt (an unknown key spec, mutated
+				// bytes, nothing at all, an honest answer): whatever an attempt leaves behind in the signer, the next one
+				// returns a signature or an error
+				pd := filepath.Join(env.Dir, "libexec", "plugins", c17Name)
+				os.MkdirAll(pd, 0755)
+				exe := filepath.Join(pd, "notation-"+c17Name)
+				describe := func(k int64) string {
+					switch k % 5 {
+					case 0:
+						return `{"keyId":"k","keySpec":"RSA-1024"}`
+					case 1:
+						return `{"keyId":"k","keySpec":"EC-256"}`
+					case 2:
+						return string(mutateBytes([]byte(`{"keyId":"k","keySpec":"EC-384"}`), seed+k, int(b%6)))
+					case 3:
+						return ""
+					}
+					return `{"keyId":"other","keySpec":"RSA-2048"}`
+				}
+				write := func(k int64) {
+					os.WriteFile(exe, simexec.MakeExecutable("script", simexec.Script{
+						"get-plugin-metadata": {{Op: "out", Fd: 1, Data: c17Valid["get-plugin-metadata"]}, {Op: "exit"}},
+						"describe-key":        {{Op: "out", Fd: 1, Data: describe(k)}, {Op: "exit"}},
+						"*":                   {{Op: "out", Fd: 1, Data: string(mutateBytes([]byte(c17Valid["generate-signature"]), seed+7+k, int((c+k)%6)))}, {Op: "exit", Code: int((c + k) % 3 / 2)}},
+					}), 0755)
+				}
+				write(a)
+				var ps *signer.PluginSigner
+				call.guard("NewPluginSigner over a CLI plugin", func() {
+					pl, err := plugin.NewCLIManager(dir.PluginFS()).Get(ctx, c17Name)
+					if err != nil {
+						return
+					}
+					ps, _ = signer.NewPluginSigner(pl, "k", map[string]string{"cfg": "x"})
+				})
+				for k := int64(0); ps != nil && k < 3; k++ {
+					write(a + k)
+					format := world.Formats[(b+k)%2]
+					if (c+k)%2 == 0 {
+						call.guard("notation.SignBlob through a long-lived PluginSigner", func() {
+							notation.SignBlob(ctx, ps, bytes.NewReader(blob), notation.SignBlobOptions{SignerSignOptions: notation.SignerSignOptions{SignatureMediaType: format}, ContentMediaType: "text/plain"})
+						})
+					} else {
+						call.guard("PluginSigner.Sign through a long-lived PluginSigner", func() {
+							ps.Sign(ctx, ociDesc, notation.SignerSignOptions{SignatureMediaType: format})
+						})
+					}
+				}
+				sim.Abstract(fmt.Sprint("pluginsigner ", a%5, b%6, c%6))
 			}
 		}
 	})
